@@ -2,7 +2,7 @@ ENGINES = [
     {"name": "E1-crosshair", "path": "vlib/chx.py", "serves_properties": ["C13", "C18", "C20"],
      "kind_free_text": "CrossHair (z3) symbolic execution of harness conditions that call toasty's real functions; inductive cuts by stubbing recursive globals / the reducer; counterexamples replayed under plain CPython"},
 ]
-ENGINES.append({"name": "E2-symx-symnp", "path": "vlib/e2.py", "serves_properties": ["C02", "C08", "C11", "C14", "C15"],
+ENGINES.append({"name": "E2-symx-symnp", "path": "vlib/e2.py", "serves_properties": ["C02", "C08", "C11", "C14", "C15", "C16"],
      "kind_free_text": "own z3-backed proxy-object symbolic execution (vlib/symx.py) with a lazy symbolic numpy (vlib/symnp.py) patched into toasty's modules; claims proved per path; counterexamples and vacuity twins replayed with real numpy on the solver model's inputs"})
 NOTES = ("Solver-based checking of the real code. Exit 0 = all explored obligations held; inconclusive obligations are printed as INCONCLUSIVE and listed in evidence, never counted as held. "
          "Exit 2 = harness error. known_findings.json lists genuine defects (open / fixed).")
@@ -58,4 +58,11 @@ CHECKS["C11"] = dict(
     technique="z3 (nonlinear real/integer arithmetic) via own symbolic execution of the real sampler closures with SYMBOLIC map width/height, symbolic lon/lat and uninterpreted map content",
     text="For every map shape nx, ny in [1, 10^6] (quick) / [1, 10^9] (thorough) — symbolic — and every real lon in the variant's principal range, lat in [-pi/2, pi/2] strictly inside a cell (1e-9 relative band excluded), z3 shows each of the five samplers returns data[row, col] of the containing cell, that lon + 2*pi*m (m in [-30, 30]) samples the same cell, that indices never leave the map (for every lon), and the output shape; the Galactic variant's rotation is uninterpreted and only its wiring (argument order) is checked.",
     note="floats as reals (np.pi = exact value of the double), numpy round/clip/%/astype as modelled by symnp (validated against real numpy on solver-chosen inputs each run); unknown solver answers are retried with other seeds and otherwise reported inconclusive.",
+)
+
+CHECKS["C16"] = dict(
+    engine="E2-symx-symnp", ref="DESIGN.md §4.8",
+    technique="z3 (QF_NRA polynomial identity) via own symbolic execution of the real parity functions on a symbolic linear WCS header; replays and vacuity twins run the same scenario with a genuine astropy WCS",
+    text="For symbolic real CDELT/PC/CRPIX (any rotation, scale, skew, reference pixel, both starting parities, PC off-diagonals present or absent), symbolic height and pixel: parity sign = -sign(det CD); flip_parity negates it, reverses the rows, and CD'.((x+1, H-y) - CRPIX') = CD.((x+1, y+1) - CRPIX); ensure_negative_parity yields -1, keeps sky positions and is idempotent — for Image and ImageDescription. Unbounded over the reals (no size bound except height <= 4096 for the row claim).",
+    note="astropy header<->WCS correspondence modelled by a stand-in (validated each run against real astropy via wcs_pix2world on solver-chosen numbers); non-linear distortions and float rounding outside.",
 )
